@@ -6,7 +6,8 @@ Line protocol of the C18 heap model.
   heap.run <schema> (<op>*)      →  (<result>*)         one result per operation
   heap.witness                   →  the history of Witness/C18.lean in request syntax, printed from the Lean terms
 
-  schema  ::= (schema <class>*)
+  schema  ::= (schema shared|fresh <class>*)     shared: unset array fields read as the class-level list (code as is);
+                                                 fresh: as a new list each time (repaired get_field_value)
   class   ::= (rec <msgid|-> <fty>*) | (fmsg h b t) | (fseg g|s <entry>*)
   fty     ::= (int w s b <dflt|->) | (arr <ety> (w s b)) | (recd c)         s, b ∈ {0,1}
   ety     ::= (int w s b) | (recd c)
@@ -66,7 +67,9 @@ def classOf : Sexp → Option ClassDef
   | _ => none
 
 def schemaOf : Sexp → Option Schema
-  | .list (.atom "schema" :: cs) => do some ⟨← cs.mapM classOf⟩
+  | .list (.atom "schema" :: .atom mode :: cs) => do
+    let fresh ← (if mode == "fresh" then some true else if mode == "shared" then some false else none)
+    some ⟨fresh, ← cs.mapM classOf⟩
   | _ => none
 
 partial def treeOf : Sexp → Option Tree
@@ -176,7 +179,8 @@ def classSx : ClassDef → Sexp
   | .fixMsg h b t => .list [.atom "fmsg", atomN h, atomN b, atomN t]
   | .fixSeg g es => .list (.atom "fseg" :: .atom (if g then "g" else "s") :: es.map entrySx)
 
-def schemaSx (S : Schema) : Sexp := .list (.atom "schema" :: S.classes.map classSx)
+def schemaSx (S : Schema) : Sexp :=
+  .list (.atom "schema" :: .atom (if S.freshArrayDefault then "fresh" else "shared") :: S.classes.map classSx)
 
 partial def treeSx : Tree → Sexp
   | .int i => atomI i
